@@ -90,7 +90,9 @@ struct Traced {
 }
 
 /// run `code` on `ctx` with the trace hook on; `before` = decoded program store before the input
-fn trace_program(id: &J, label: &str, ctx: &mut numbat::Context, before: &VmProgram, code: &str, limit: usize, want_decoded: bool) -> Traced {
+/// want_decoded: Some(kp) = also report everything the input added to the program store; its first kp chunks
+/// (the chunks of a prefix many programs share) separately
+fn trace_program(id: &J, label: &str, ctx: &mut numbat::Context, before: &VmProgram, code: &str, limit: usize, want_decoded: Option<usize>) -> Traced {
     let g0 = before.stack_len;
     let f0 = before.chunks.len();
     let ip0 = before.chunks[0].byte_len;
@@ -146,14 +148,16 @@ fn trace_program(id: &J, label: &str, ctx: &mut numbat::Context, before: &VmProg
         "chunks": chunks, "names": names_j, "consts": consts_j, "structs": structs_j, "ffi": ffi_j,
     });
     // everything this input added to the program store, for the comparison with Compile.tla
-    let decoded = if want_decoded {
+    let decoded = if let Some(kp) = want_decoded {
+        let split = (f0 + kp).min(after.chunks.len());
         let code_json = |i: usize| -> Vec<J> {
             after.chunks[i].code.iter().filter(|ins| i != 0 || ins.offset >= ip0)
                 .map(|ins| json!({"o": ins.offset, "op": ins.op, "a": ins.operands})).collect()
         };
         json!({
             "main": code_json(0),
-            "chunks": (f0..after.chunks.len()).map(|i| json!({"i": i, "n": after.chunks[i].name, "code": code_json(i)})).collect::<Vec<_>>(),
+            "prefix": (f0..split).map(|i| json!({"i": i, "n": after.chunks[i].name, "code": code_json(i)})).collect::<Vec<_>>(),
+            "chunks": (split..after.chunks.len()).map(|i| json!({"i": i, "n": after.chunks[i].name, "code": code_json(i)})).collect::<Vec<_>>(),
             "consts": (before.constants.len()..after.constants.len()).map(|i| json!({"i": i, "tx": show(&after.constants[i].value)})).collect::<Vec<_>>(),
             "ffi": (0..after.chunks.len()).filter(|&i| i == 0 || i >= f0).flat_map(|i| after.chunks[i].code.iter()
                     .filter(move |ins| (i != 0 || ins.offset >= ip0) && ins.op.starts_with("FFICall")).map(|ins| ins.operands[0] as usize))
@@ -199,6 +203,7 @@ fn trace_program(id: &J, label: &str, ctx: &mut numbat::Context, before: &VmProg
 fn write_out(dir: &str, prefix: &str, traced: Vec<Traced>, per_file: usize) {
     std::fs::create_dir_all(dir).unwrap();
     let mut summaries = vec![];
+    let mut prefixes: std::collections::HashMap<String, usize> = std::collections::HashMap::new();
     let mut k = 0;
     let mut cur: Option<Out> = None;
     let mut cur_name = String::new();
@@ -212,6 +217,16 @@ fn write_out(dir: &str, prefix: &str, traced: Vec<Traced>, per_file: usize) {
             k += 1;
         }
         let mut s = t.summary;
+        // a shared prefix is written once: later programs refer to it by key
+        if let Some(pre) = s["decoded"].get("prefix").cloned() {
+            let text = pre.to_string();
+            let n = prefixes.len();
+            let key = *prefixes.entry(text).or_insert(n);
+            s["decoded"]["prefix_key"] = json!(key);
+            if key != n {
+                s["decoded"].as_object_mut().unwrap().remove("prefix");
+            }
+        }
         s["file"] = json!(cur_name);
         s["line"] = json!(cur_lines + 1);
         let o = cur.as_mut().unwrap();
@@ -239,7 +254,7 @@ fn prelude_ctx() -> Option<numbat::Context> {
 }
 
 /// vm-trace --cases f --out-dir d [--per-file N] [--limit L] [--threads T]
-/// case {id, stmts:[text..]}: the whole program is ONE input (compiled completely, then run) on a clone of the
+/// case {id, stmts:[text..], kp: number of chunks of a shared prefix}: the whole program is ONE input (compiled completely, then run) on a clone of the
 /// prelude context
 fn vm_trace(args: &[String]) -> i32 {
     let cases = read_ndjson(arg(args, "--cases").expect("--cases"));
@@ -253,7 +268,7 @@ fn vm_trace(args: &[String]) -> i32 {
         let stmts: Vec<&str> = c["stmts"].as_array().unwrap().iter().map(|s| s.as_str().unwrap()).collect();
         let code = stmts.join("\n");
         let mut ctx = base.clone();
-        trace_program(&c["id"], "", &mut ctx, &before, &code, limit, true)
+        trace_program(&c["id"], "", &mut ctx, &before, &code, limit, Some(c["kp"].as_u64().unwrap_or(0) as usize))
     });
     write_out(dir, "gen", traced, per_file);
     0
@@ -282,7 +297,7 @@ fn vm_examples(args: &[String]) -> i32 {
         let code = std::fs::read_to_string(path).unwrap_or_default();
         let mut ctx = base.clone();
         let label = path.strip_prefix(root).unwrap_or(path).trim_start_matches('/').to_string();
-        trace_program(&json!(i), &label, &mut ctx, &before, &code, limit, false)
+        trace_program(&json!(i), &label, &mut ctx, &before, &code, limit, None)
     });
     write_out(dir, "ex", traced, per_file);
     0
